@@ -129,3 +129,28 @@ package synchronizer
 //@   ensures [inv] swf(s)
 //@   modifies s.state.view, s.state.highQC, s.lastTimeout, s.timer, s.voter.lastVotedView, s.proposer.lastProposed, s.timeouts.timeouts, s.timeouts.timeouts[*], trace(added), trace(tadd), trace(tlog), alloc
 //@   preserves @std
+
+// OnNewView only advances the view through advanceView (at most one step, on evidence).
+//@ func (*Synchronizer).OnNewView property C07
+//@   requires swf(s) && hotstuff.genesisBlock != nil && blockchain.hashdet() && s.state.view < 18446744073709551615
+//@   ensures [step-one] s.state.view == old(s.state.view) || s.state.view == old(s.state.view) + 1
+//@   ensures [evidence] s.state.view != old(s.state.view) ==> evid(s.auth, newView.SyncInfo, vsiView(s.timeoutRules, newView.SyncInfo)) && vsiView(s.timeoutRules, newView.SyncInfo) >= old(s.state.view)
+//@   ensures [highqc-monotone] s.state.highQC.view >= old(s.state.highQC.view)
+//@   ensures [inv] swf(s)
+//@   modifies s.state.view, s.state.highQC, s.lastTimeout, s.timer, s.voter.lastVotedView, s.proposer.lastProposed, trace(added)
+//@   preserves @std
+
+// OnLocalTimeout: a timeout message for view v leaves the replica (ghost trace `tl`, kind 2,
+// recorded at the call of Sender.Timeout) only after voting was stopped for v: either
+// StopVoting(v') with v' >= v was called immediately before in this call (kind 1), or the
+// message is the stored lastTimeout being re-sent, for which the vote mark is already at or
+// above its view (object invariant of the synchronizer).
+//@ func (*Synchronizer).OnLocalTimeout property C03,C07
+//@   requires swf(s) && hotstuff.genesisBlock != nil && blockchain.hashdet() && s.state.view < 18446744073709551614
+//@   requires s.timeouts.config != nil && nodup(s.timeouts.timeouts)
+//@   ghost at call StopVoting :: emit tl(1, op1)
+//@   ghost at call Timeout :: emit tl(2, op1.View)
+//@   ensures [stop-before-send] forall k int :: {traceat(tl, 0, k)} old(tracelen(tl)) <= k && k < tracelen(tl) && traceat(tl, 0, k) == 2 ==> traceat(tl, 1, k) <= old(s.voter.lastVotedView) || (k > old(tracelen(tl)) && traceat(tl, 0, k - 1) == 1 && traceat(tl, 1, k - 1) >= traceat(tl, 1, k))
+//@   ensures [inv] swf(s)
+//@   modifies s.state.view, s.state.highQC, s.lastTimeout, s.timer, s.voter.lastVotedView, s.proposer.lastProposed, s.timeouts.timeouts, s.timeouts.timeouts[*], trace(added), trace(tl), trace(timeoutsent), alloc
+//@   preserves @std
